@@ -1,6 +1,7 @@
 use crate::engine::Prop;
 
 pub mod behav;
+pub mod c02;
 pub mod c05;
 pub mod c06;
 pub mod c07;
@@ -18,7 +19,7 @@ pub mod lsp;
 pub mod run_common;
 
 pub fn all() -> Vec<&'static dyn Prop> {
-  vec![&behav::C01, &behav::C03, &behav::C04, &c05::C05, &c06::C06, &c07::C07, &c08::C08, &c09::C09, &c12::C12, &c13::C13, &c14::C14, &c15::C15, &c16::C16, &c17::C17, &c18::C18, &lsp::C10, &lsp::C11]
+  vec![&behav::C01, &c02::C02, &behav::C03, &behav::C04, &c05::C05, &c06::C06, &c07::C07, &c08::C08, &c09::C09, &c12::C12, &c13::C13, &c14::C14, &c15::C15, &c16::C16, &c17::C17, &c18::C18, &lsp::C10, &lsp::C11]
 }
 
 pub fn by_id(id: &str) -> Option<&'static dyn Prop> {
